@@ -89,6 +89,15 @@ def build(tier, seed):
                     add(d, D.config([f], {f: mm}), kind='single', classes=[f, str(mm)])
                     if f == 'iter' and m != 'table_inline':
                         add(d, D.config(['iter', 'range'], {'iter': mm}), kind='single', classes=['iter+range', str(mm)])
+    # every pair of features (plus iter when range needs it), gapless and holes
+    import itertools as _it2
+    for r, label, vals in [('i8', 'holes_neg_later', [-10, -9, -5, -4, 3]), ('u16', 'gapless_pos', [5, 6, 7])]:
+        d = D.make_decl(r, label, vals, 'asc', 'explicit', 'default', rnd, vis='pub')
+        for a, b in _it2.combinations(D.ALL_FEATURES, 2):
+            feats = [a, b]
+            if 'range' in feats and 'iter' not in feats:
+                feats.append('iter')
+            add(d, D.config(feats), kind='pair', classes=[a + '+' + b])
     # name / vis / struct_name parameters
     for r, label, vals in [('i16', 'holes2', [0, 1, 9]), ('u8', 'gapless0', [0, 1, 2, 3])]:
         for evis in ['pub', 'pub(crate)', '', 'pub(super)', 'pub(in crate::MOD)']:
@@ -115,6 +124,62 @@ def build(tier, seed):
                     for it in (['range', 'next_and_back'] if d['gapless'] else ['next_and_back', 'table']):
                         add(d, D.config(D.ALL_FEATURES, {'iter': it, 'as_str': 'table'}, params, split=2), kind='params',
                             classes=['evis=' + evis, 'vis=' + str(pv), 'named=' + str(named)])
+    # ---- families for the metamorphic properties (C18, C10 split): members differ in exactly one dimension
+    fam = [0]
+    def family(kind, members):
+        fam[0] += 1
+        for label, d, cfg in members:
+            if D.config_legal(cfg, d):
+                insts.append({'decl': d, 'cfg': cfg, 'kind': kind, 'family': 'F%03d' % fam[0], 'member': label,
+                              'classes': [d['repr'], d['label'], d['order'], d['spelling'], d['naming'], kind]})
+    import itertools as _it
+    sets = [('i16', 'holes_neg_later', [-10, -9, -5, -4, 3]), ('u8', 'gapless0', [0, 1, 2, 3]), ('i32', 'holes2', [0, 1, 9]), ('i8', 'gapless_neg', [-2, -1, 0, 1]),
+            ('i64', 'holes_mixed', [1, 2, 3, 4, 10, 20, 21, 30, 31, 32, 33, 34, 35]), ('u16', 'gapless_257', list(range(0, 257)))]
+    cfgs = [('explicit', lambda g: D.full_config('table', 'table', 'match', 'next_and_back', True, split=1)),
+            ('tables', lambda g: D.full_config('match', 'match', 'table', 'table', True, split=1)),
+            ('auto', lambda g: D.full_config(None, None, None, None, True, split=1))]
+    for r, label, vals in sets:
+        n = len(vals)
+        for cname, mk in cfgs:
+            members = []
+            for naming in ('hostile',):
+                base = D.make_decl(r, label, vals, 'asc', 'explicit', naming, rnd)
+                orders = []
+                if n <= 4:
+                    orders = list(_it.permutations(range(n)))
+                    if tier == 'quick':
+                        orders = orders[::5] + [orders[-1]]
+                else:
+                    orders = [tuple(range(n)), tuple(reversed(range(n)))]
+                    for _ in range(2 if tier == 'quick' else 6):
+                        p = list(range(n)); rnd.shuffle(p); orders.append(tuple(p))
+                for oi, perm in enumerate(orders):
+                    d = dict(base); d['variants'] = [base['variants'][i] for i in perm]; d['order'] = 'perm%d' % oi
+                    members.append(('order=%s' % (list(perm) if n <= 6 else oi), d, mk(d['gapless'])))
+            family('perm', members)
+    # repr families: every fixed-width repr that can hold the values (pointer-sized reprs are covered by the item rules only)
+    for label, vals in [('holes_neg_later', [-10, -9, -5, -4, 3]), ('gapless0', [0, 1, 2, 3]), ('holes_mixed', [1, 2, 3, 4, 10, 20, 21, 30, 31, 32, 33, 34, 35]),
+                        ('gapless_130', list(range(-100, 30)) ), ('gapless_pos200', list(range(0, 200)))]:
+        for cname, mk in cfgs[:2]:
+            members = []
+            for r in D.REPRS:
+                if r.endswith('size'):
+                    continue
+                lo, hi = D.dom_bounds(r)
+                if vals[0] < lo or vals[-1] > hi:
+                    continue
+                d = D.make_decl(r, label, vals, 'asc', 'explicit', 'default', rnd)
+                members.append(('repr=%s' % r, d, mk(d['gapless'])))
+            family('reprfam', members)
+    # split families: the same features in 1, 2, 3 attributes
+    for r, label, vals in sets[:4]:
+        d = D.make_decl(r, label, vals, 'shuf', 'explicit', 'hostile', rnd)
+        for cname, mk in cfgs:
+            members = []
+            for k in (1, 2, 3, 5):
+                c = mk(d['gapless']); c = dict(c); c['split'] = k
+                members.append(('split=%d' % k, d, c))
+            family('split', members)
     if tier == 'thorough':
         # seeded random members of the same classes
         for _ in range(200):
